@@ -146,6 +146,7 @@ func init() {
 			{Name: "window", Cases: func(t rig.Tier) int { return map[rig.Tier]int{rig.Quick: 800, rig.Thorough: 8000}[t] }, Run: c10Window, Procs: 4, Workers: 16, Quiet: 90 * time.Second},
 			{Name: "window-race", Race: true, Cases: func(t rig.Tier) int { return map[rig.Tier]int{rig.Quick: 128, rig.Thorough: 1280}[t] }, Run: c10Window, Procs: 4, Workers: 16, Quiet: 120 * time.Second},
 			{Name: "reconnect", Cases: func(t rig.Tier) int { return map[rig.Tier]int{rig.Quick: 192, rig.Thorough: 2400}[t] }, Run: c10Reconnect, Procs: 2, Workers: 32, Quiet: 90 * time.Second},
+			{Name: "late-verdict", Cases: func(t rig.Tier) int { return map[rig.Tier]int{rig.Quick: 48, rig.Thorough: 600}[t] }, Run: func(c *rig.Ctx) { xLateVerdict(c, c.Rand, "late-verdict") }, Procs: 2, Quiet: 90 * time.Second},
 			{Name: "reconnect-race", Race: true, Cases: func(t rig.Tier) int { return map[rig.Tier]int{rig.Quick: 48, rig.Thorough: 480}[t] }, Run: c10Reconnect, Procs: 4, Workers: 16, Quiet: 120 * time.Second},
 		},
 	})
